@@ -296,7 +296,7 @@ pub fn run_c08(ctx: &Ctx, sink: &mut Sink) {
             std::fs::create_dir_all(d.join("r").join(sub)).unwrap();
             std::fs::write(d.join("r").join(sub).join(f), b"").unwrap();
         }
-        let sc = Scene { dir: d.clone(), roots: vec![], names: vec![], extra: vec![] };
+        let sc = Scene { dir: d.clone(), roots: vec![], names: vec![], extra: vec![], mounts: vec![] };
         for pre in [vec!["mindepth:2"], vec!["mindepth:3"], vec!["type:f"], vec!["mindepth:2", "type:f"], vec!["mindepth:2", "depth"], vec!["mindepth:1"]] {
             for dirflag in [1u8, 0u8] {
                 let roots = vec![(b"r".to_vec(), crate::world::observe_root(b"r", &d.join("r")))];
